@@ -1,1 +1,77 @@
+(* C02 property theorems.  Nothing but statements closed by `exact`, each followed by Print Assumptions.
+   The statements are spelled out in ProofsProps.v (families: conjunctions, one conjunct per overload) and ProofsMod.v.
+   Reading guide (definitions in DivSpec.v / ProofsDiv.v / ProofsMod.v):
+     is_trunc n d q r : n = d q + r, |r| < |d|, n r >= 0        (C `/` and `%`)
+     is_floor / is_ceil : same with r of the sign of d / of the opposite sign
+     is_eucl  n d q r : n = d q + r, 0 <= r < |d|               (mod, divmod, quoRem)
+     Trunc_quot dom f : forall n d, dom d -> d <> 0 -> exists r, is_trunc n d (f n d) r     (likewise Floor_/Ceil_quot)
+     Trunc_rem / Floor_rem / Ceil_rem / Eucl_rem dom f : ... exists q, is_xxx n d q (f n d)
+     Eucl_divmod dom f : ... is_eucl n d (fst (f n d)) (snd (f n d)) and the remainder fits the word type
+     Exact_quot dom f : forall n d q, dom d -> d <> 0 -> n = d q -> f n d = q
+     Trunc_rem_when dom ret f : the truncated remainder is returned whenever it is representable in the return type
+   n ranges over all of Z; d over all non-zero values of the divisor's C type (in_i64, in_u64, in_i32, in_u32, ...),
+   INT64_MIN / 2^63 / 2^64-1 included.  The functions are the Gallina bodies of Model.v, one per overload. *)
 From Coq Require Import ZArith.
+From C02 Require Import Model DivSpec ProofsDiv ProofsMod ProofsProps.
+Local Open Scope Z_scope.
+
+(* each rounding convention determines q and r uniquely (so 'the' truncated / floor / ceiling / euclidean quotient and remainder exist), and rounds in the direction its name says *)
+Theorem C02_conventions_well_defined : Conventions_well_defined_stmt. Proof. exact conventions_well_defined. Qed.
+Print Assumptions C02_conventions_well_defined.
+(* `/`, `/=`, div, divin — every overload (Integer, int64_t, uint64_t, int32_t, uint32_t, template, word/Integer) — return the quotient rounded towards 0 *)
+Theorem C02_truncating_quotients : Truncating_quotients_stmt. Proof. exact truncating_quotients. Qed.
+Print Assumptions C02_truncating_quotients.
+(* divexact, all six overloads: when d | n the result is the q with n = d q (negative int64_t divisors, INT64_MIN included) *)
+Theorem C02_exact_divisions : Exact_divisions_stmt. Proof. exact exact_divisions. Qed.
+Print Assumptions C02_exact_divisions.
+(* floor / ceil / trunc (reference-returning and value-returning) round as their names say *)
+Theorem C02_floor_ceil_trunc : Named_roundings_stmt. Proof. exact named_roundings. Qed.
+Print Assumptions C02_floor_ceil_trunc.
+(* trem / crem / frem with an Integer divisor, a uint64_t divisor, and the uint64_t-returning forms (which return |r|) *)
+Theorem C02_trem_crem_frem : Named_remainders_stmt. Proof. exact named_remainders. Qed.
+Print Assumptions C02_trem_crem_frem.
+(* divmod (Integer, int64_t, uint64_t): n = d q + r with 0 <= r < |d| for every sign of n and d; r fits its word type *)
+Theorem C02_divmod : Divmods_stmt. Proof. exact divmods. Qed.
+Print Assumptions C02_divmod.
+(* mod / modin, every overload: 0 <= r < |d| and r = n (mod d) *)
+Theorem C02_mod_modin : Mods_stmt. Proof. exact mods. Qed.
+Print Assumptions C02_mod_modin.
+(* `%=` and `%`, every overload whose return type can hold every remainder: truncated remainder (sign of the dividend, |r| < |d|) *)
+Theorem C02_percent_operators : Percent_operators_stmt. Proof. exact percent_operators. Qed.
+Print Assumptions C02_percent_operators.
+(* int64_t %(uint64_t), int32_t %(uint32_t), int16_t %(uint16_t): the truncated remainder is returned whenever the return type can represent it *)
+Theorem C02_percent_operators_narrow_return_type : Percent_narrow_return_stmt. Proof. exact percent_narrow_return. Qed.
+Print Assumptions C02_percent_operators_narrow_return_type.
+(* IntegerDom::div/divin/divexact/mod/modin/divmod/quoRem carry the conventions of the Integer functions they forward to *)
+Theorem C02_IntegerDom_wrappers : Dom_wrappers_stmt. Proof. exact dom_wrappers. Qed.
+Print Assumptions C02_IntegerDom_wrappers.
+(* q = a / b and r = a % b satisfy a = b q + r, |r| < |b|, a r >= 0 (header: 'a = b q + r is always true') *)
+Theorem C02_div_and_mod_operators_pair : Div_mod_pair_stmt. Proof. exact div_mod_pair. Qed.
+Print Assumptions C02_div_and_mod_operators_pair.
+(* the remainder of divmod is mod *)
+Theorem C02_divmod_remainder_is_mod : Divmod_mod_stmt. Proof. exact divmod_mod. Qed.
+Print Assumptions C02_divmod_remainder_is_mod.
+(* header warning: the two conventions coincide when a >= 0 *)
+Theorem C02_conventions_agree_for_nonneg_dividend : Conventions_agree_nonneg_stmt. Proof. exact conventions_agree_nonneg. Qed.
+Print Assumptions C02_conventions_agree_for_nonneg_dividend.
+(* all overloads of the truncating quotient return the same value on their common domain *)
+Theorem C02_quotient_overloads_agree : Quotient_overloads_agree_stmt. Proof. exact quotient_overloads_agree. Qed.
+Print Assumptions C02_quotient_overloads_agree.
+(* all overloads of the truncated remainder return the same value on their common domain *)
+Theorem C02_remainder_overloads_agree : Remainder_overloads_agree_stmt. Proof. exact remainder_overloads_agree. Qed.
+Print Assumptions C02_remainder_overloads_agree.
+(* all overloads of the non-negative remainder (mod, modin, divmod's r, rem, remin, frem for d > 0) agree *)
+Theorem C02_mod_overloads_agree : Mod_overloads_agree_stmt. Proof. exact mod_overloads_agree. Qed.
+Print Assumptions C02_mod_overloads_agree.
+(* divmod overloads and the IntegerDom forms return the same pair *)
+Theorem C02_divmod_overloads_agree : Divmod_overloads_agree_stmt. Proof. exact divmod_overloads_agree. Qed.
+Print Assumptions C02_divmod_overloads_agree.
+(* quo, rem, quoin, remin, quoRem describe one division a = b q + r, 0 <= r < |b| (quo as repaired by frag/C02.fix-1.diff) *)
+Theorem C02_euclidean_ring_view_consistent : Euclidean_ring_consistent_stmt. Proof. exact euclidean_ring_consistent. Qed.
+Print Assumptions C02_euclidean_ring_view_consistent.
+(* with quo = floor (the body before the repair) the ring view is inconsistent for a negative divisor *)
+Theorem C02_quo_as_floor_refuted : exists a b, b <> 0 /\ a <> b * dom_quo_floor a b + dom_rem a b /\ dom_quo_floor a b <> fst (dom_quoRem a b). Proof. exact quo_floor_inconsistent. Qed.
+Print Assumptions C02_quo_as_floor_refuted.
+(* isDivisor(a, b) <-> b | a *)
+Theorem C02_isDivisor : IsDivisor_stmt. Proof. exact isDivisor_spec. Qed.
+Print Assumptions C02_isDivisor.
